@@ -50,7 +50,7 @@ def r1_dispatch(rep, ctx):
     m = ctx.model
     n = dispatch.check_dunders(rep, "C04.R1", m, "Scalar", with_lambda=True)
     n += dispatch.check_dunders(rep, "C04.R1", m, "Array")
-    rep.floor("C04.R1", "dunders", n, 20)
+    rep.floor("C04.R1", "dunders", n, 10)
     # FixedArray inherits Array's operators (no override that bypasses them)
     for d in ("__mul__", "__truediv__", "__add__", "__sub__", "__floordiv__"):
         own = m.classes["FixedArray"].methods.get(d)
